@@ -130,7 +130,15 @@ check('C07', 'Hypothesis choice tapes decoded into G4 documents in reference mod
       'Sampling only; definitions in tight list items are not generated.',
       'DESIGN.md 5/C07')
 
+check('C19', 'Hypothesis choice tapes decoded into G4 documents with outline-shaped headings x TocRenderer options; expected outline computed from the model',
+      'hypothesis-sharded',
+      'Headings (ATX and setext, top level and inside containers, plain-word titles with optional inline markup) form an outline; depth, '
+      'omit_title, filter predicates and the shallowest level are drawn; the walk of renderer.toc must list exactly the qualifying headings '
+      'of the model, in order, nested by level relative to the shallowest qualifying level.',
+      'Sampling only; cases without a qualifying heading or whose qualifying headings are not an outline are skipped and counted.',
+      'DESIGN.md 5/C19')
+
 _PENDING = 'check not built yet in this revision (work in progress; technique applies, see DESIGN.md section 5)'
 for _p in ['C09', 'C10',
-           'C19']:
+           ]:
     NOT_YET[_p] = _PENDING
